@@ -19,6 +19,11 @@ pub struct DetTrace {
     /// Save the children of the tree's root as several roots instead of the root.
     #[serde(default)]
     pub multi_root: bool,
+    /// With `multi_root`: how the caller's list of roots is shaped. 0 = the children in
+    /// order; 1 = reversed; 2 = the last child named again at the front (a root listed
+    /// twice); 3 = every child named twice.
+    #[serde(default)]
+    pub root_list: u8,
     pub tree: NodeSpec,
     /// Environment kinds to compare with the canonical one.
     pub envs: Vec<u8>,
@@ -518,7 +523,9 @@ impl Engine for DetSim {
         r.shuffle(&mut envs);
         envs.truncate(r.range(2, 4) as usize);
         let multi_root = tree.children.len() >= 2 && r.chance(1, 3);
-        serde_json::to_value(&DetTrace { multi_root, tree, envs, env_seed_salt: r.next_u64() >> 16 }).unwrap()
+        let env_seed_salt = r.next_u64() >> 16;
+        let root_list = if multi_root { *r.pick(&[0u8, 0, 1, 2, 3]) } else { 0 };
+        serde_json::to_value(&DetTrace { multi_root, root_list, tree, envs, env_seed_salt }).unwrap()
     }
 
     fn execute(&self, trace: &Value, ctx: &mut RunCtx) {
@@ -538,7 +545,13 @@ impl Engine for DetSim {
         let canon0 = spec::canon_without_uid_values(&dom0);
         let selection = |dom: &WeakDom, root: Ref| -> Vec<Ref> {
             if t.multi_root {
-                dom.get_by_ref(root).map(|i| i.children().to_vec()).unwrap_or_default()
+                let kids = dom.get_by_ref(root).map(|i| i.children().to_vec()).unwrap_or_default();
+                match t.root_list {
+                    1 => kids.into_iter().rev().collect(),
+                    2 => kids.last().copied().into_iter().chain(kids.iter().copied()).collect(),
+                    3 => kids.iter().copied().chain(kids.iter().copied()).collect(),
+                    _ => kids,
+                }
             } else {
                 vec![root]
             }
